@@ -8,7 +8,7 @@
    input length never runs out), and every native recursion is entered only after an opening bracket has been
    consumed, which lowers the nesting of the remaining text by one, while the matching closing bracket gives the
    level back (so depth fuel above the nesting never runs out -- siblings reuse the same budget). *)
-From PVIdl Require Import Comb Ast Parser Proofs.Nesting.
+From PVIdl Require Import Comb Ast Parser Proofs.Nesting Proofs.Partial.
 From Coq Require Import ZifyN ZifyNat ZifyBool.
 Open Scope nat_scope.
 
@@ -560,7 +560,9 @@ Hint Resolve tr_cpp_type : safe.
 
 Lemma tr_int_constant : trans P P (p_int_constant lf).
 Proof.
-  unfold p_int_constant. apply trans_seq_same; [|intro; tr].
+  (* the checked negation of IntConstant::parse cannot fail (Partial.v): the parser equals its total reading *)
+  intros i Hi. rewrite (p_int_constant_is_total lf i). revert i Hi. change (trans P P (p_int_constant_total lf)).
+  unfold p_int_constant_total. apply trans_seq_same; [|intro; tr].
   apply trans_many0_count; tr.
 Qed.
 Hint Resolve tr_int_constant : safe.
